@@ -259,5 +259,51 @@ func VerifC06HashInBoundary() {
 	nd.Reach("c06.hashin.boundary")
 	nd.Observe(hv, in)
 	nd.Assert("c06.hashin.boundary.evaluates", hv >= 0 && in >= 0)
+	// Defect class of the known finding (known_findings.txt): x and some list
+	// element are different integers with the same float64 image (the
+	// comparison type degraded to DOUBLE). Such cells assert under their own id
+	// so that the recorded finding masks no other cell of the table.
+	if c06FloatCollision(xc, elems) {
+		nd.Assert("c06.hashin.boundary.same-as-in.float64-collision", hv == in)
+		return
+	}
 	nd.Assert("c06.hashin.boundary.same-as-in", hv == in)
+}
+
+// c06FloatCollision: some non-NULL literal differs from x as an integer but
+// equals it after conversion to float64 (concrete values only).
+func c06FloatCollision(xc interface{}, elems []sql.Expression) bool {
+	toF := func(v interface{}) (f float64, neg bool, mag uint64, ok bool) {
+		switch n := v.(type) {
+		case int8:
+			return c06FromInt(int64(n))
+		case int64:
+			return c06FromInt(n)
+		case uint64:
+			return float64(n), false, n, true
+		}
+		return 0, false, 0, false
+	}
+	xf, xneg, xmag, ok := toF(xc)
+	if !ok {
+		return false
+	}
+	for _, e := range elems {
+		lf, lneg, lmag, ok := toF(e.(*Literal).Val)
+		if !ok {
+			continue
+		}
+		same := xneg == lneg && xmag == lmag
+		if !same && xf == lf {
+			return true
+		}
+	}
+	return false
+}
+
+func c06FromInt(n int64) (float64, bool, uint64, bool) {
+	if n < 0 {
+		return float64(n), true, uint64(-(n + 1)) + 1, true
+	}
+	return float64(n), false, uint64(n), true
 }
